@@ -112,6 +112,130 @@ theorem mapBelow_run (ops : List Op) : ∀ w, MapBelow w → MapBelow (run w ops
 theorem mapped_ids_below_next (ops : List Op) : MapBelow (run genesis ops) :=
   mapBelow_run ops genesis mapBelow_genesis
 
+theorem exec4_id_below (w : World) (hb : MapBelow w) (msg caller : Nat) (sub : Bytes) (code : Kind)
+    (robust : Bytes) (ctor : Ctor) (w' : World) (id : Nat)
+    (h : exec4 w msg caller sub code robust ctor = .ok (w', id)) : id < w'.nextId := by
+  obtain ⟨_, _, h1, h2, _⟩ := exec4_spec _ _ _ _ _ _ _ _ _ h
+  cases hd : klookup (delegatedKey caller sub) w.addrMap with
+  | none => obtain ⟨a, b⟩ := h1 hd; omega
+  | some e => obtain ⟨a, b, _⟩ := h2 e hd; have := hb _ _ hd; omega
+
+theorem eam_id_below (w : World) (hb : MapBelow w) (msg : Nat) (newAddr robust : Bytes) (ctor : Ctor)
+    (w' : World) (ret : Ret) (h : createActorEam w msg newAddr robust ctor = .ok (w', ret)) :
+    ret.id < w'.nextId := by
+  obtain ⟨_, _, hx | ⟨a, hk, _, _, _, _, _, hn, _⟩⟩ := createActorEam_spec _ _ _ _ _ _ _ h
+  · exact exec4_id_below _ hb _ _ _ _ _ _ _ _ hx
+  · rw [hn]; exact hb _ _ hk
+
+/-- **fresh ids exceed every id ever returned**: whenever an operation reports an id (new or
+    existing), that id is below the resulting `next_id` — so every id handed out later, being
+    a later `next_id`, is greater than all ids reported before. -/
+theorem returned_id_below_next (w : World) (hb : MapBelow w) (op : Op) (id : Nat) (eth : Option Bytes)
+    (h : (step w op).2 = .ok (some id) eth) : id < (step w op).1.nextId := by
+  have key : ∀ (w0 w' : World) (m : Nat) (ret : Ret) (r : Except Err (World × Ret)), MapBelow w0 →
+      r = .ok (w', ret) →
+      ((∃ caller nonce robust ctor, r = create w0 m caller nonce robust ctor) ∨
+       (∃ caller salt ih robust ctor, r = create2 w0 m caller salt ih robust ctor) ∨
+       (∃ caller addr robust ctor, r = assign w0 m caller addr robust ctor) ∨
+       (∃ caller n robust ctor, r = createExternal w0 m caller n robust ctor)) →
+      ret.id < w'.nextId := by
+    intro w0 w' m ret r hb0 hr hc
+    obtain ⟨addr, rb, ct, hce⟩ := eam_entry_cases _ _ _ _ _ hr hc
+    exact eam_id_below _ hb0 _ _ _ _ _ _ hce
+  have hbp : ∀ s, MapBelow (promote w s) := fun s => (promote_wstep 0 w s).below hb
+  cases op with
+  | exec msg caller code robust ctor =>
+    simp only [step] at h ⊢
+    cases hx : exec (promote w caller) msg caller code robust ctor with
+    | error e => simp [hx, outOfId] at h
+    | ok p =>
+      obtain ⟨w', i⟩ := p; simp [hx, outOfId] at h ⊢
+      obtain ⟨_, h1, h2, _⟩ := exec_spec _ _ _ _ _ _ _ _ hx
+      omega
+  | exec4 msg caller sub code robust ctor =>
+    simp only [step] at h ⊢
+    cases hx : exec4 (promote w caller) msg caller sub code robust ctor with
+    | error e => simp [hx, outOfId] at h
+    | ok p =>
+      obtain ⟨w', i⟩ := p; simp [hx, outOfId] at h ⊢
+      have := exec4_id_below _ (hbp caller) _ _ _ _ _ _ _ _ hx
+      omega
+  | eamCreate msg caller nonce robust ctor =>
+    simp only [step] at h ⊢
+    cases hx : create (promote w caller) msg caller nonce robust ctor with
+    | error e => simp [hx, outOfRet] at h
+    | ok p =>
+      obtain ⟨w', ret⟩ := p; simp [hx, outOfRet] at h ⊢
+      have := key _ _ _ _ _ (hbp caller) hx (Or.inl ⟨_, _, _, _, rfl⟩)
+      omega
+  | eamCreate2 msg caller salt ih robust ctor =>
+    simp only [step] at h ⊢
+    cases hx : create2 (promote w caller) msg caller salt ih robust ctor with
+    | error e => simp [hx, outOfRet] at h
+    | ok p =>
+      obtain ⟨w', ret⟩ := p; simp [hx, outOfRet] at h ⊢
+      have := key _ _ _ _ _ (hbp caller) hx (Or.inr (Or.inl ⟨_, _, _, _, _, rfl⟩))
+      omega
+  | eamAssign msg caller addr robust ctor =>
+    simp only [step] at h ⊢
+    cases hx : assign (promote w caller) msg caller addr robust ctor with
+    | error e => simp [hx, outOfRet] at h
+    | ok p =>
+      obtain ⟨w', ret⟩ := p; simp [hx, outOfRet] at h ⊢
+      have := key _ _ _ _ _ (hbp caller) hx (Or.inr (Or.inr (Or.inl ⟨_, _, _, _, rfl⟩)))
+      omega
+  | createExternal msg caller n robust ctor =>
+    simp only [step] at h ⊢
+    cases hx : createExternal (promote w caller) msg caller n robust ctor with
+    | error e => simp [hx, outOfRet] at h
+    | ok p =>
+      obtain ⟨w', ret⟩ := p; simp [hx, outOfRet] at h ⊢
+      have := key _ _ _ _ _ (hbp caller) hx (Or.inr (Or.inr (Or.inr ⟨_, _, _, _, rfl⟩)))
+      omega
+  | evmCreate msg deployer endowOk cop robust ctor =>
+    simp only [step] at h ⊢
+    cases hx : evmCreate w msg deployer endowOk cop robust ctor with
+    | error e => simp [hx] at h
+    | ok p =>
+      obtain ⟨w', r⟩ := p
+      cases r with
+      | none => simp [hx] at h
+      | some ret =>
+        simp [hx] at h ⊢
+        obtain ⟨a, ha, _, h1 | ⟨_, _, h2 | ⟨ret', hr', h3⟩⟩⟩ := evmCreate_spec _ _ _ _ _ _ _ _ _ hx
+        · cases h1.2.2
+        · cases h2.1
+        · cases hr'
+          have hbb : MapBelow (bump w deployer a) := (bump_wstep 0 w deployer a ha).below hb
+          have : ret.id < w'.nextId := by
+            rcases h3 with ⟨_, hc⟩ | ⟨salt, ih, _, hc⟩
+            · exact key _ _ _ _ _ hbb hc (Or.inl ⟨_, _, _, _, rfl⟩)
+            · exact key _ _ _ _ _ hbb hc (Or.inr (Or.inl ⟨_, _, _, _, _, rfl⟩))
+          omega
+  | selfdestruct msg c =>
+    simp only [step] at h
+    cases hx : selfdestruct w msg c with
+    | error e => simp [hx] at h
+    | ok w' => simp [hx] at h
+  | sendKey msg sender addr =>
+    simp only [step] at h ⊢
+    cases hx : sendKey (promote w sender) addr with
+    | error e => simp [hx, outOfId] at h
+    | ok p =>
+      obtain ⟨w', i⟩ := p; simp [hx, outOfId] at h ⊢
+      rcases sendKey_spec _ _ _ _ hx with ⟨hk, he⟩ | ⟨_, h1, h2, _⟩
+      · have := hbp sender _ _ hk; rw [he]; omega
+      · omega
+  | sendDeleg msg sender ns sub =>
+    simp only [step] at h ⊢
+    cases hx : sendDeleg (promote w sender) ns sub with
+    | error e => simp [hx, outOfId] at h
+    | ok p =>
+      obtain ⟨w', i⟩ := p; simp [hx, outOfId] at h ⊢
+      rcases sendDeleg_spec _ _ _ _ _ hx with ⟨hk, he⟩ | ⟨_, _, h1, h2, _⟩
+      · have := hbp sender _ _ hk; rw [he]; omega
+      · omega
+
 /-! ### stable mapping -/
 
 /-- **stable_mapping**: the address map only grows and an existing key never changes its value:
